@@ -211,8 +211,8 @@ def split_cases(text):
     return cases
 
 
-def run_model(trace_path, out_path, raw=False):
-    rc, out = sh("%s %s %s > %s" % (RUNNER, "--raw" if raw else "", trace_path, out_path), timeout=1200)
+def run_model(trace_path, out_path, raw=False, socket=False):
+    rc, out = sh("%s %s %s %s > %s" % (RUNNER, "--raw" if raw else "", "--socket" if socket else "", trace_path, out_path), timeout=1200)
     return rc == 0, out
 
 
@@ -239,17 +239,17 @@ def compare(trace_path, impl_path, model_path):
     return diffs, len(im)
 
 
-def replay_trace(trace_lines, work, tag):
+def replay_trace(trace_lines, work, tag, profile="seq"):
     """run impl and model on the given trace lines; returns first differing (idx, impl, model) or None"""
     tin = os.path.join(work, tag + ".in")
     tout = os.path.join(work, tag + ".trace")
     iobs = os.path.join(work, tag + ".impl")
     mobs = os.path.join(work, tag + ".model")
     open(tin, "w").write("\n".join(trace_lines) + "\n")
-    rc, out = sh([HBIN, "seq-replay", "--in", tin, "--trace", tout, "--obs", iobs], timeout=300)
+    rc, out = sh([HBIN, profile + "-replay", "--in", tin, "--trace", tout, "--obs", iobs], timeout=300)
     if rc != 0:
         return ("harness-failed", out, "")
-    ok, out = run_model(tout, mobs)
+    ok, out = run_model(tout, mobs, socket=(profile == "conn"))
     if not ok:
         return ("runner-failed", out, "")
     diffs, _ = compare(tout, iobs, mobs)
@@ -258,9 +258,12 @@ def replay_trace(trace_lines, work, tag):
     return None
 
 
-def minimize(trace_lines, work):
+def minimize(trace_lines, work, profile="seq"):
     """delta-debug the event lines of one case (header kept), re-running both sides"""
-    header, events = trace_lines[0], [l for l in trace_lines[1:] if not l.startswith("O")]
+    header, events = trace_lines[0], [l for l in trace_lines[1:] if l[:1] not in "OG"]
+    rt = replay_trace
+    def replay_trace(lines, work, tag):
+        return rt(lines, work, tag, profile)
     if replay_trace([header] + events, work, "min") is None:
         return trace_lines  # not reproducible without oracle lines (random evictions): keep as is
     n = 2
@@ -438,11 +441,12 @@ def run_seq_suites(prop, cfg, tier, seed, work, report):
             report["errors"].append("harness failed on corpus %s: %s" % (cf, out[-500:]))
             continue
         suites.append((tag, tout, iobs, mobs, None))
-    for si, (flavor, il, ml, ncases, steps) in enumerate(cfg.get("seq", SEQ_DEFAULT)):
-        tag = "gen_%d_%s" % (si, flavor)
+    allsuites = [("seq",) + t for t in cfg.get("seq", SEQ_DEFAULT)] + [("conn",) + t for t in cfg.get("conn", [])]
+    for si, (profile, flavor, il, ml, ncases, steps) in enumerate(allsuites):
+        tag = "%s_%d_%s" % (profile, si, flavor)
         tout, iobs, mobs, st = [os.path.join(work, tag + e) for e in (".trace", ".impl", ".model", ".stats")]
-        cmd = [HBIN, "seq-gen", "--seed", str(seed + si), "--cases", str(ncases * mult), "--steps", str(steps),
-               "--flavor", flavor, "--item-limit", str(il), "--prefix", "s%d" % si,
+        cmd = [HBIN, profile + "-gen", "--seed", str(seed + si), "--cases", str(ncases * mult), "--steps", str(steps),
+               "--flavor", flavor, "--item-limit", str(il), "--prefix", "%s%d" % (profile[0], si),
                "--trace", tout, "--obs", iobs, "--stats", st]
         if ml is not None:
             cmd += ["--mem-limit", str(ml)]
@@ -453,7 +457,7 @@ def run_seq_suites(prop, cfg, tier, seed, work, report):
         suites.append((tag, tout, iobs, mobs, st))
     distinct = set()
     for tag, tout, iobs, mobs, st in suites:
-        ok, out = run_model(tout, mobs)
+        ok, out = run_model(tout, mobs, socket=tag.startswith("conn_"))
         if not ok:
             report["errors"].append("runner failed on %s: %s" % (tag, out[-500:]))
             continue
@@ -475,7 +479,8 @@ def run_seq_suites(prop, cfg, tier, seed, work, report):
         for d in diffs:
             all_diffs.append((tag,) + d)
         report["suites"].append(tag)
-        report["trace_files"].append(tout)
+        if not tag.startswith("conn_"):
+            report["trace_files"].append(tout)
     report["distinct_nontrivial"] = len(distinct)
     return all_diffs
 
